@@ -172,6 +172,62 @@ fn operand_matrix(e: &mut Eng, triples: bool) {
     );
 }
 
+/// EqSet over sets of 0..=130 elements: equal up to order, with repeats on either side (same set, more entries),
+/// with one element replaced (same number of entries, different set), with an extra element, in both operand orders.
+fn eqset_matrix(e: &mut Eng) {
+    let mut r = Rng::new(e.args.seed ^ 0xe95e7);
+    let base = vmgen::base_case(&mut r);
+    let push_set = |ops: &mut Vec<Op>, s: &[Vec<Word>]| {
+        let mut total = 0;
+        for el in s {
+            ops.extend(el.iter().map(|w| PUSH(*w)));
+            ops.push(PUSH(el.len() as Word));
+            total += el.len() as Word + 1;
+        }
+        ops.push(PUSH(total));
+    };
+    for n in [0usize, 1, 2, 3, 8, 15, 16, 17, 18, 31, 32, 33, 40, 64, 65, 100, 130] {
+        let a: Vec<Vec<Word>> = (0..n).map(|i| vec![i as Word, (i * 7 % 5) as Word]).collect();
+        let mut variants: Vec<Vec<Vec<Word>>> = vec![];
+        let mut perm = a.clone();
+        r.shuffle(&mut perm);
+        variants.push(perm.clone());
+        if n > 0 {
+            let mut v = perm.clone();
+            v.push(a[n / 2].clone()); // a repeat: same set
+            variants.push(v);
+            let mut v = perm.clone();
+            v[0] = perm[n - 1].clone(); // a repeat instead of another element: same length, smaller set
+            variants.push(v);
+            let mut v = perm.clone();
+            v.push(vec![9999, 1]); // one more element
+            variants.push(v);
+            let mut v = perm.clone();
+            v[n / 2] = vec![7777]; // one element replaced by a new one
+            variants.push(v);
+            let mut v = perm.clone();
+            v.truncate(n - 1);
+            v.push(a[0].clone()); // drops one element, repeats another (same length unless it was a[0])
+            variants.push(v);
+        }
+        for (i, x) in variants.iter().enumerate() {
+            for y in variants.iter().skip(i) {
+                for swap in [false, true] {
+                    if !e.mine() {
+                        continue;
+                    }
+                    let mut ops = vec![PUSH(5)];
+                    let (l, rr) = if swap { (y, x) } else { (x, y) };
+                    push_set(&mut ops, l);
+                    push_set(&mut ops, rr);
+                    ops.extend([EQST, PUSH(6)]);
+                    e.run(&single(&ops, &base), JudgeOpts { mapped: false, lockstep: true, eval: false }, "matrix");
+                }
+            }
+        }
+    }
+}
+
 fn control_matrix(e: &mut Eng, thorough: bool) {
     let ev = e.args.prop == "C09";
     let mut r = Rng::new(e.args.seed ^ 0x99);
@@ -685,6 +741,7 @@ pub fn run(args: &Args, rep: &mut Report) {
             read_matrix(&mut e, thorough);
             control_matrix(&mut e, thorough);
             access_matrix(&mut e, thorough);
+            eqset_matrix(&mut e);
             random_cases(&mut e, Focus::General, scale(40_000, 1_500_000), ls, &[], "random");
             random_cases(&mut e, Focus::StateRead, scale(6_000, 200_000), ls, &[], "random-reads");
             random_cases(&mut e, Focus::Compute, scale(6_000, 200_000), ls, &[], "random-compute");
@@ -693,6 +750,7 @@ pub fn run(args: &Args, rep: &mut Report) {
         }
         "C08" => {
             operand_matrix(&mut e, thorough);
+            eqset_matrix(&mut e);
             random_cases(&mut e, Focus::General, scale(40_000, 2_000_000), ls, &[], "random");
             if thorough {
                 exhaustive_short(&mut e, 2, &[1, 3, 6, 7]);
